@@ -1486,7 +1486,7 @@ def translate(obj, vec, **kwargs):
         geom = obj
 
     # Translate control points
-    for g in geom:
+    for g in ops.unique_geometries(geom):
         new_ctrlpts = []
         for pt in g.ctrlpts:
             temp = [v + vec[i] for i, v in enumerate(pt)]
@@ -1587,7 +1587,7 @@ def rotate(obj, angle, **kwargs):
     origin = geom[0].evaluate_single(params)
 
     # Start rotation
-    for g in geom:
+    for g in ops.unique_geometries(geom):
         rotfunc[axis](g, origin, angle)
 
     return geom
@@ -1619,7 +1619,7 @@ def scale(obj, multiplier, **kwargs):
         geom = obj
 
     # Scale control points
-    for g in geom:
+    for g in ops.unique_geometries(geom):
         new_ctrlpts = [[] for _ in range(g.ctrlpts_size)]
         for idx, pts in enumerate(g.ctrlpts):
             new_ctrlpts[idx] = [p * float(multiplier) for p in pts]
@@ -1650,7 +1650,7 @@ def transpose(surf, **kwargs):
     else:
         geom = surf
 
-    for g in geom:
+    for g in ops.unique_geometries(geom):
         # Get existing data
         degree_u_new = g.degree_v
         degree_v_new = g.degree_u
@@ -1702,7 +1702,7 @@ def flip(surf, **kwargs):
     else:
         geom = surf
 
-    for g in geom:
+    for g in ops.unique_geometries(geom):
         size_u = g.ctrlpts_size_u
         size_v = g.ctrlpts_size_v
         cpts = g.ctrlptsw if g.rational else g.ctrlpts
